@@ -287,6 +287,7 @@ R6_TABLE = [
     (r'\.map_or\(0, Bytes::len\)', '.vx_map_or_0_len()'),
     (r'\(\*cb\)\(', 'cb.vx_call('),
     (r'\|_\|', '|_vx0|'),
+    (r'&src\.as_ref\(\)\[0\.\.4\] == MQTT', 'vx_starts_with_mqtt(src)'),
     (r'\bu8::from\(((?:self|will|pkt|publish)\.(?:no_local|retain_as_published|dup|retain|session_present))\)', r'vx_u8_from_bool(\1)'),
     (r'Box<dyn Fn\(([^()]*)\)>', r'VxBoxFn<(\1)>'),
     (r'\.map_or\(0, \|v\| 1 \+ v\.encoded_size\(\)\)', '.vx_map_or_0_1_plus_encoded_size()'),
@@ -667,7 +668,7 @@ def process_template(unit, tmpl_path, prelude_dir):
             loc = d[5:]
             mm = re.search(r'\s\[(.*)\]\s*$', loc)
             if mm:
-                opts = dict((kv.split('=') + [''])[:2] for kv in mm.group(1).split())
+                opts = dict((kv.split('=', 1) + [''])[:2] for kv in mm.group(1).split())
                 loc = loc[:mm.start()]
             emit_item(unit, loc, opts)
             i += 1
@@ -715,6 +716,12 @@ def emit_item(unit, loc, opts):
         text = text[:k] + add + ' ' + text[k:]
         for g in opts['ghosts']:
             unit.rule_log.append({'rule': 'GHOST', 'before': '', 'after': 'ghost field ' + g, 'where': loc})
+    if 'exec_const' in opts:
+        mm = re.match(r'(?s)\s*const\s+(\w+)\s*:\s*([^=]+?)\s*=\s*(.*);\s*$', text)
+        if not mm:
+            raise Unsupported('exec_const: not a plain const item: ' + loc)
+        text = 'pub exec const %s: %s\n    ensures %s,\n{ %s }' % (mm.group(1), mm.group(2), opts['exec_const'].replace('~', ' '), mm.group(3))
+        unit.rule_log.append({'rule': 'CONST', 'before': 'const %s = <exec expr>' % mm.group(1), 'after': 'exec const with ensures (initializer calls exec fns)', 'where': loc})
     if 'pub' in opts:
         mm = re.search(r'\b(struct|enum|fn|const|type|trait)\b', text)
         text = text[:mm.start()] + 'pub ' + text[mm.start():]
@@ -852,6 +859,15 @@ def expand_macro(unit, it, src, rel):
         out.append('    { if value { self.insert(other); } else { self.remove(other); } }')
         out.append('    pub fn from_bits_truncate(bits: %s) -> (r: Self) ensures r.bits == bits & %d%s { %s { bits: bits & %d } }' % (ty, allv, ty, sname, allv))
         out.append('    pub fn from_bits(bits: %s) -> (r: Option<Self>) ensures r == (if bits & !%d%s == 0 { Some(%s { bits }) } else { None::<%s> }) { if bits & !%d%s == 0 { Some(%s { bits }) } else { None } }' % (ty, allv, ty, sname, sname, allv, ty, sname))
+        out.append('}')
+        out.append('impl core::ops::BitAnd for %s {' % sname)
+        out.append('    type Output = %s;' % sname)
+        out.append('    fn bitand(self, other: Self) -> (r: Self) { %s { bits: self.bits & other.bits } }' % sname)
+        out.append('}')
+        out.append('impl vstd::std_specs::ops::BitAndSpecImpl<%s> for %s {' % (sname, sname))
+        out.append('    open spec fn obeys_bitand_spec() -> bool { true }')
+        out.append('    open spec fn bitand_req(self, other: %s) -> bool { true }' % sname)
+        out.append('    open spec fn bitand_spec(self, other: %s) -> %s { %s { bits: self.bits & other.bits } }' % (sname, sname, sname))
         out.append('}')
         # pairwise disjointness facts (literals only), each discharged by bit_vector
         facts = []
